@@ -154,6 +154,7 @@ func TestVerifC20(t *testing.T) {
 		}
 	}
 	// Strings() sorts
+	fmt.Printf("REPLAY-SAMPLE Less(%q,%q)=%v\n", ss[n/2], ss[n/3], lt[n/2][n/3])
 	fmt.Printf("REPLAY-CASES %d\n", cases)
 	if fails > 0 {
 		t.Fatalf("%d law violations", fails)
